@@ -20,18 +20,19 @@ func (a simAddr) Network() string { return "tcp" }
 func (a simAddr) String() string  { return a.s }
 
 type simHalf struct {
-	mu      sync.Mutex
-	cond    *sync.Cond
-	buf     []byte // readable bytes
-	wire    []byte // written, not yet delivered (only with gating)
-	closed  bool   // writer closed: EOF after buf is drained
-	rclosed bool   // reader closed
-	reset   bool   // connection reset: reads fail at once
-	gated   bool
-	rdl     time.Time
-	rtimer  *time.Timer
-	written int
-	stops   []int // offsets into wire that one Deliver call does not cross (message boundaries marked by the writer)
+	mu       sync.Mutex
+	cond     *sync.Cond
+	buf      []byte // readable bytes
+	wire     []byte // written, not yet delivered (only with gating)
+	closed   bool   // writer closed: EOF after buf is drained
+	rclosed  bool   // reader closed
+	reset    bool   // connection reset: reads fail at once
+	gated    bool
+	rdl      time.Time
+	rtimer   *time.Timer
+	written  int
+	wblocked bool  // writes of this end block until released (a peer that does not read: full send buffer)
+	stops    []int // offsets into wire that one Deliver call does not cross (message boundaries marked by the writer)
 }
 
 func newHalf() *simHalf {
@@ -84,6 +85,9 @@ func (c *simConn) Read(p []byte) (int, error) {
 func (c *simConn) Write(p []byte) (int, error) {
 	h := c.wr
 	h.mu.Lock()
+	for h.wblocked && !(h.closed || h.reset || h.rclosed) {
+		h.cond.Wait() // the peer's receive window is closed: the writer waits (durably, for the simulator)
+	}
 	if h.closed || h.reset || h.rclosed {
 		h.mu.Unlock()
 		return 0, errors.New("simnet: write on closed connection")
@@ -141,6 +145,14 @@ func (c *simConn) PendingOut() int {
 	c.wr.mu.Lock()
 	defer c.wr.mu.Unlock()
 	return len(c.wr.wire)
+}
+
+// BlockWrites makes every Write of this end wait (true) or lets them through again (false).
+func (c *simConn) BlockWrites(b bool) {
+	c.wr.mu.Lock()
+	c.wr.wblocked = b
+	c.wr.cond.Broadcast()
+	c.wr.mu.Unlock()
 }
 
 // Written is the number of bytes this end has written so far (delivered or not).
